@@ -3,27 +3,40 @@
 PROP = dict(
     level="exploration",
     stages=[dict(name="c15_proc", src="harness/c15_proc.cc", deps=["harness/c15/child.hh"],
-                 link=["-Wl,--wrap=fork", "-Wl,--wrap=waitpid", "-Wl,--wrap=poll", "-Wl,--wrap=read", "-Wl,--wrap=write"],
+                 link=["-Wl,--wrap=fork", "-Wl,--wrap=waitpid", "-Wl,--wrap=poll", "-Wl,--wrap=read", "-Wl,--wrap=write", "-Wl,--wrap=kill"],
                  shards_quick=8, shards_thorough=16, timeout_quick=600, timeout_thorough=2400,
                  nondeterministic=True)],
     rule=("each case = (API: run_process with check on/off, stdin present/absent, timeout; Subprocess::communicate(std::string) with and "
           "without deadline), payload size, a child script interpreted by the harness binary re-executed as `--child` (read N / read "
           "to EOF / slow reader / cat / write N pattern bytes to stdout or stderr in chunks with pauses / sleep / close a descriptor / "
-          "exit code / die by signal / ignore SIGTERM / never exit), and a parent-side delay plan applied through link-time "
+          "exit code / die by signal / ignore SIGTERM / never exit / start a background descendant that inherits stdin, stdout and/or stderr, "
+          "writes nothing and outlives the child - only stderr under communicate), ambient periodic signals in the calling process (SIGALRM "
+          "every 30..100 ms from ITIMER_REAL armed right after fork, no-op handler without SA_RESTART, so poll really fails with EINTR; in "
+          "half of the calls whose timeout has to fire and a sixth of the others), and a parent-side delay plan applied through link-time "
           "interposition at the k-th waitpid/poll/read/write (sleep 0.2..20 ms, wait-until-the-child-is-a-zombie, "
           "wait-until-the-child-closed-stdin). A deterministic grid {0,1,4095,4096,65535,65536,65537,1 MiB} x 4 behaviours x 4 API "
-          "variants is enumerated, rapidcheck draws the rest (12 behaviour families, payloads and outputs up to 4 MiB). Non-trivial: "
+          "variants is enumerated (plus fixed shapes, among them a never-exiting child under 30 / 100 ms signals and a child that leaves a "
+          "descendant holding the output pipes, for every API variant), rapidcheck draws the rest (13 behaviour families, payloads and "
+          "outputs up to 4 MiB). With a descendant holding the pipes the call still owes the child's own bytes and wait status, and it "
+          "must come back without waiting for the descendant (which lives 120 s: waiting for it is a no-progress deadlock for the "
+          "watchdog). Under signals with a timeout T: the number of the caller's poll() calls that failed with EINTR before it first "
+          "signals the child, times the signal period, is a lower bound of the time since the child started; it must not exceed "
+          "T + 2 s (when it does, the signals stop so that the call can return, and the case fails) - no wall-clock reading, a starved "
+          "caller handles fewer signals, not more. Non-trivial: "
           "payload > 64 KiB, or child output > 64 KiB on a stream, or a non-empty delay plan with a child that exits right after its "
-          "last write. Distinct = distinct case encodings (script, payload, plan)."),
+          "last write, or a descendant that holds stdout/stderr, or a never-exiting child under periodic signals. Distinct = distinct case "
+          "encodings (script, payload, plan)."),
     assumptions=["SIGPIPE is ignored in the calling process (the worker sets SIG_IGN)",
                  "communicate does not read stderr: with an unread stderr pipe the child writes at most 16 KiB to it, otherwise stderr goes to a file",
                  "always the std::string overload of communicate (a string literal binds to the (const void*, size_t, uint64_t) overload)",
                  "communicate timeouts are exercised only with a child that keeps stdout open",
                  "deadlines that must not expire are 60 s; expiring ones 100..300 ms",
+                 "under communicate a background descendant of the child holds only stderr (communicate reads stdout to end-of-file and writes stdin until it is closed; what it owes while another process keeps one of those open is not stated)",
+                 "a timeout that has to fire under periodic signals may be noticed up to 2 s late (run_process polls with a 1 s period); the signals reach only the calling process, never the child",
                  "deadlock verdict: worker and child all blocked (no process runnable) with no change of rchar+wchar in /proc/<pid>/io and no CPU time consumed for 10 s plus the sleeps the case asks for; runaway verdict: more than 6x the case's I/O volume + 64 MiB moved, or more than 90 s of CPU consumed"],
     min_evaluations_quick=400,
     technique=("property-based testing of real child processes: rapidcheck-generated child scripts and parent delay plans "
-               "(-Wl,--wrap=fork,waitpid,poll,read,write), byte-exact output model (pattern bytes as a function of stream and offset), "
+               "(-Wl,--wrap=fork,waitpid,poll,read,write,kill), real SIGALRM streams in the caller, byte-exact output model (pattern bytes as a function of stream and offset), "
                "child-side count+FNV hash of stdin, /proc/self/fd and waitpid(-1) accounting, forked worker per case under a "
                "progress-based deadlock watchdog"),
     level_text=("Exploration: real kernel pipes and real children; the harness steers timing (child scripts, sleeps and "
